@@ -79,7 +79,7 @@ let num s = n_of_int (int_of_string s)
 
 (* ------------------------------------------------------------------ mutex *)
 let mutex_op = function
-  | "l" | "lh" -> OLock | "tl" -> OTry | "al" -> OAsync | "ap" -> OPoll | "ad" -> ODropFut | "yw" -> OWait
+  | "l" | "lh" -> OLock | "tl" -> OTry | "al" -> OAsync | "ap" -> OPoll | "ad" -> ODropFut | "yw" | "ys" -> OWait
   | o -> failwith ("bad mutex op " ^ o)
 
 let res_s = function
@@ -216,7 +216,7 @@ let skel_lines pfx table =
 let rw_op = function
   | "r" | "rh" -> ROLock RD | "w" | "wh" -> ROLock WR | "tr" -> ROTry RD | "tw" -> ROTry WR
   | "ar" -> ROAsync RD | "aw" -> ROAsync WR | "apr" -> ROPoll RD | "apw" -> ROPoll WR
-  | "ad" -> RODropFut | "yw" -> ROWait
+  | "ad" -> RODropFut | "yw" | "ys" -> ROWait
   | o -> failwith ("bad rwlock op " ^ o)
 
 let rres_s = function
